@@ -171,10 +171,17 @@ let pwrite_file f off d = match d with
 | [] -> f
 | _ :: _ -> write_at f off d
 
+type errno =
+| EIO
+| ENOSPC
+| EAGAIN
+| EINTR
+| EBADF
+
 type wresp =
 | WFull
 | WCount of nat
-| WErr
+| WErr of errno
 
 (** val deliver : wresp -> nat -> nat option **)
 
@@ -182,7 +189,7 @@ let deliver r remaining =
   match r with
   | WFull -> Some remaining
   | WCount c -> Some (Nat.min c remaining)
-  | WErr -> None
+  | WErr _ -> None
 
 (** val fw_loop :
     ('a1 -> nat -> byte list -> 'a1 * nat option) -> nat -> nat -> 'a1 -> nat
@@ -420,7 +427,9 @@ let file_create o p =
       | CFailLock ->
         (((bump_fail (os_close (log o1 (ELock (fd, false))) (Some fd))),
           false), (Some fd))
-      | _ -> (((log o1 (ELock (fd, true))), true), (Some fd)))
+      | _ ->
+        let o2 = log o1 (ELock (fd, true)) in
+        (((set_fs o2 (upd o2.fs p (Some []))), true), (Some fd)))
    | None -> (((bump_fail o1), false), None))
 
 (** val file_close : os -> nat option -> os **)
